@@ -351,7 +351,10 @@ func builtin_ascii(self, o py.Object) (py.Object, error) {
 	if err != nil {
 		return nil, err
 	}
-	repr := reprObj.(py.String)
+	repr, ok := reprObj.(py.String)
+	if !ok {
+		return nil, py.ExceptionNewf(py.TypeError, "__repr__ returned non-string (type %s)", reprObj.Type().Name)
+	}
 	out := py.StringEscape(repr, true)
 	return py.String(out), err
 }
